@@ -153,7 +153,10 @@ def calls_for(spec, rng, cap):
     """Call shapes: {"n": number of positionals, "kw": [keyword names in call order]}; accepted and rejected alike."""
     po, pk, ko = spec["po"], spec["pk"], spec["ko"]
     N = len(po) + len(pk)
-    extra_pool = ["zz", "yy"] + po[:1] + ([spec["va"]] if spec["va"] else []) + ([spec["vk"]] if spec["vk"] else [])
+    # "self", "args", "__binding": names the binding machinery itself might use for its own parameters -- to the caller they
+    # are ordinary keywords of the wrapped callable
+    extra_pool = (["zz", "yy"] + po[:1] + ([spec["va"]] if spec["va"] else []) + ([spec["vk"]] if spec["vk"] else [])
+                  + [rng.choice((["self", "self"] if spec["kind"] == "function" else []) + ["args", "kwargs", "__binding", "obj", "call"])])
     extra_opts = [[]] + [[e] for e in extra_pool] + [list(t) for t in itertools.combinations(extra_pool, 2)]
     out = []
     for n in range(0, N + 3):
